@@ -133,7 +133,88 @@ def analyse(ctx, F, sfx):
     used_keys = collections.Counter()
     residual = []
 
+    pdom_cache = {}
+
+    def param_domains(fid_):
+        """{param index: sorted finite value set} for integer parameters of a crate function whose every call site passes
+        a constant or the element of an iteration over a constant range / array (`for i in 0..4 { f(x, i) }`)"""
+        if fid_ in pdom_cache:
+            return pdom_cache[fid_]
+        g = F.fn(fid_)
+        callers = F.callers(fid_)
+        dom_ = {}
+        if callers and g.d.get('kind') != 'Closure':
+            for pi in range(1, g.argc + 1):
+                if INT_W.get(g.locals[pi]['ty']) is None or g.locals[pi]['ty'] == 'bool':
+                    continue
+                vals, okp = set(), True
+                for (cf_, cb_) in callers:
+                    cfn = F.fn(cf_)
+                    a_ = peel(cfn.argv(cb_, pi - 1), casts=True)
+                    cv_ = const_val(a_)
+                    if cv_ is not None:
+                        vals.add(cv_)
+                        continue
+                    rng_ = None
+                    nx_ = a_
+                    if isinstance(a_, tuple) and a_[0] == 'field' and a_[2] == '0' and isinstance(a_[1], tuple) and a_[1][0] == 'variant' and a_[1][2] == 'Some':
+                        nx_ = peel(a_[1][1], unwraps=False)
+                    if is_call(nx_, r'Iterator>::next$|Iterator::next$|Iterator for std::ops::Range<A>>::next$'):
+                        for x in walk(nx_):
+                            if isinstance(x, tuple) and x[0] == 'agg' and str(x[1]).endswith('ops::Range::Range') and all(const_val(y) is not None for y in x[2]):
+                                rng_ = range(const_val(x[2][0]), const_val(x[2][1]))
+                            if isinstance(x, tuple) and x[0] == 'agg' and x[1] == 'array' and x[2] and all(const_val(y) is not None for y in x[2]):
+                                rng_ = [const_val(y) for y in x[2]]
+                    if rng_ is None or len(rng_) > 64:
+                        okp = False
+                        break
+                    vals |= set(rng_)
+                if okp and vals:
+                    dom_[pi] = sorted(vals)
+        pdom_cache[fid_] = dom_
+        return dom_
+
+    def param_pinned(s):
+        """the site is safe for every value a small-domain parameter can take (all call sites enumerated): asserts are
+        evaluated for each value from the function entry; a conversion's operand is shown to fit by bit provenance"""
+        f_, bi_ = s['f'], s['bi']
+        dom_ = param_domains(s['fid'])
+        if len(dom_) != 1:
+            return False, ''
+        (pi, vals), = dom_.items()
+        t_ = f_.blocks[bi_]['term']
+        if t_['k'] == 'assert':
+            for v_ in vals:
+                r_ = eval_region(f_, 0, {pi: v_}, until_assert=bi_, assume_asserts=True, skip_calls=True)
+                if r_[0] != 'cond' or r_[3] is None or bool(r_[3]) != bool(t_['expected']):
+                    return False, ''
+            return True, 'holds for every value %s of parameter %d that a call site can pass (all %d call sites pass a constant or a loop index over a constant range)' % (vals, pi, len(F.callers(s['fid'])))
+        if s['kind'] in ('unwrap', 'expect') or s['kind'].startswith('unwrap'):
+            from vlib.bits import BitEval
+            a0 = s['args'][0] if s.get('args') else None
+            inner = peel(a0, unwraps=False) if a0 is not None else None
+            if is_call(inner, r'TryInto::try_into$|TryFrom::try_from$'):
+                dst = f_.blocks[bi_]['term']['dest']
+                w_ = INT_W.get(f_.locals[dst['l']]['ty']) if not dst['p'] else None
+                if w_:
+                    for v_ in vals:
+                        e_ = rewrite(inner[2][0], lambda x: ('const', v_, None, f_.locals[pi]['ty']) if x == ('param', pi) else None)
+                        b_ = BitEval(lambda x: ('p%d' % x[1], INT_W.get(f_.locals[x[1]]['ty'], 64)) if isinstance(x, tuple) and x[0] == 'param' else None).bits(e_)
+                        if b_ is None or any(x != 0 for x in b_[w_:]):
+                            return False, ''
+                    return True, 'the converted value has no bit above bit %d for every value %s of parameter %d (bit provenance)' % (w_ - 1, vals, pi)
+        return False, ''
+
     def vet(s, key, rid):
+        okp_, whyp_ = (False, '')
+        try:
+            okp_, whyp_ = param_pinned(s)
+        except Exception:
+            okp_ = False
+        if okp_:
+            discharged['param-domain'] += 1
+            rep.ok(rid, key + ':param-domain:%d' % discharged['param-domain'], whyp_, s['loc'])
+            return
         used_keys[key] += 1
         v = vetted.get(key)
         if v and used_keys[key] <= v.get('count', 1):
